@@ -388,6 +388,39 @@ def run(tier, seed, only=None):
                     if not close(got, ref, rtol=1e-8, atol=1e-10):
                         b.fail(f"C16.layers.{nm}.value", desc, f"got {np.asarray(got).tolist()} expected {np.asarray(ref).tolist()}")
                 b.case(desc)
+        # labels outside the documented range [0, C) are rejected with an error -- in every row, for every loss that takes class labels; labels
+        # inside it, of any integer type, give the formula
+        Nl, Cl = 3, 4
+        xs_ = rng.normal(size=(Nl, Cl))
+        probs_ = np.exp(xs_) / np.exp(xs_).sum(axis=1, keepdims=True)
+        label_losses = [("softmax_crossentropy", lambda y: nn.softmax_crossentropy(xs_, y)), ("negative_log_likelihood", lambda y: nn.negative_log_likelihood(np.log(probs_), y)),
+                        ("multiclass_hinge", lambda y: nn.multiclass_hinge(xs_, y)), ("focal_loss", lambda y: nn.focal_loss(probs_, y, alpha=1, gamma=1)), ("softmax_focal_loss", lambda y: nn.softmax_focal_loss(xs_, y, alpha=1, gamma=1))]
+        for ln_, lf_ in label_losses:
+            good = np.array([1, 3, 0])
+            ref_out = np.asarray(lf_(good).data)
+            for ldt in (np.int8, np.uint8, np.int32, np.uint64, np.int64):
+                b.count(f"{ln_}[label dtype]")
+                d_ = dict(layer=ln_, labels=good.tolist(), label_dtype=np.dtype(ldt).name)
+                try:
+                    got = np.asarray(lf_(good.astype(ldt)).data)
+                    if not close(got, ref_out, rtol=1e-12, atol=0):
+                        b.fail(f"C16.layers.{ln_}.value", d_, "the value depends on the integer type of the labels")
+                except Exception as e:
+                    b.fail(f"C16.layers.{ln_}.rejects_valid", d_, f"{type(e).__name__}: {e}")
+                b.case(d_)
+            for row in range(Nl):
+                for badv in (Cl, Cl + 1, 2 * Cl, -1, -Cl, -Cl - 1):
+                    y = good.copy()
+                    y[row] = badv
+                    d_ = dict(layer=ln_, labels=y.tolist(), classes=Cl, kind="label outside [0, C)")
+                    b.count(f"{ln_}[label range]")
+                    try:
+                        out = lf_(y)
+                    except Exception:
+                        b.case(d_)
+                        continue
+                    b.fail(f"C16.layers.{ln_}.accepts_invalid", d_, f"label {badv} (row {row}) is outside [0, {Cl}) and was accepted; returned {np.asarray(out.data).tolist()}")
+                    b.case(d_)
         # integer-valued scores (the layers accept them; the formulas are evaluated in floating point)
         for dt, vals, ys in ((np.uint8, [[1, 2, 250], [0, 255, 128]], [2, 1]), (np.int8, [[-128, 127, 0], [100, -100, 5]], [1, 0]), (np.int16, [[-32768, 32767, 0]], [1]), (np.int64, [[-3, 0, 4], [10, 11, 9]], [0, 2]), (np.uint8, [[3, 1, 2]], [1])):
             xi, y = np.array(vals, dtype=dt), np.array(ys)
